@@ -572,7 +572,7 @@ pub struct SocketEnv {
 impl SocketEnv {
     pub fn new(worker: usize) -> Option<SocketEnv> {
         let rt = tokio::runtime::Builder::new_multi_thread().worker_threads(1).enable_all().build().ok()?;
-        let dir = std::path::Path::new(crate::rt::VERIF_DIR).join("harness").join("target");
+        let dir = crate::rt::verif_dir().join("harness").join("target");
         let _ = std::fs::create_dir_all(&dir);
         let path = dir.join(format!("c18-{}-{worker}.sock", std::process::id()));
         let live = DynamicConfig::new();
